@@ -440,6 +440,13 @@ def specs(quick):
         small = [s for s in core if s[0] in ("empty", "a", "crlf--", "almost", "tail-cr")]
         out += [("mp", [a, b, c]) for a in small for b in small for c in small]
     out += [("nested", [s]) for s in core[:8]]
+    # many parts in one body: what the reader counts or keeps per part must start afresh with each part
+    # (70 parts x 2-3 header lines is more than max_headers=128 lines in total, far less per part)
+    one = [s for s in singles if s[0] == "a" and s[1] is None and s[2] is None and s[3] == "plain" and s[4] is None][0]
+    hd = [s for s in singles if s[0] == "a" and s[3] == "custom" and s[4] is not None][0]
+    out.append(("mp", [one] * 70))
+    out.append(("mp", [hd] * 70))
+    out.append(("form", True, [("file", b"data", "a.bin")] + [(f"f{i}", f"v{i}", None) for i in range(70)]))
     for q in (True, False):
         out.append(("form", q, [("f", b"data", "a.txt"), ("t", "téxt", None)]))
         out.append(("form", q, [("fi eld", b"\r\n--" + B.encode()[:-1], 'q"uo%te.txt'), ("é", "v", None)]))
